@@ -642,3 +642,18 @@ Proof.
     + apply HA; apply Nat.mod_upper_bound; exact Hd.
     + destruct (Nat.eqb (i mod mdim a) (j mod mdim a)); [apply eval_pone| reflexivity].
 Qed.
+
+(* capstone: the vm_compute-checkable condition  U * U^dagger == I  on the symbolic table of a matrix
+   expression makes its complex denotation unitary (rows orthonormal) for every real parameter assignment *)
+Theorem munitary_sound (th : nat -> R) m U : mtab m = Some U -> square U = true ->
+  table_eqb (ptmul U (ptadj U)) (ptid (length U)) = true ->
+  forall i j, (i < mdim m)%nat -> (j < mdim m)%nat ->
+  @ksum Cops (map (fun k => Cmult (mden th m i k) (Cconj (mden th m j k))) (seq 0 (mdim m)))
+  = if Nat.eqb i j then RtoC 1 else RtoC 0.
+Proof.
+  intros Hm Sq Hu i j Hi Hj. destruct (mtab_sound th m U Hm) as [Hl He].
+  rewrite <- Hl in Hi, Hj.
+  etransitivity; [| exact (unitary_sound (CR_C th) U Sq Hu i j Hi Hj)].
+  rewrite Hl in *. apply (Lemmas.ksum_map_ext Cops). intros k Hk. apply in_seq in Hk.
+  rewrite <- !He by lia. reflexivity.
+Qed.
